@@ -1,54 +1,114 @@
-/- Driver for C06: compares the real qmail-remote blast() with `rblast` and evaluates the
-   property oracle on the implementation's output. Input lines: `<chunk> <in> <O|P|T> <out>` -/
+/- Driver for C06: compares the real qmail-remote blast() with `rblast` (pure encoder) and with `SmtpIO.oblast`
+   (the same loop over the substdio model, run with the harness's read / write plans as scripts), and evaluates the
+   property oracles on the implementation's output.
+   Input lines: `<plan> <in> <O|P|R|D|T> <wire> <nwrites> <smtpto.p> <buffered>`   (plan = <rplan>[/<wplan>], see Drv/SmtpPlan.lean) -/
 import Drv.Util
+import Drv.SmtpPlan
 import Nq.SmtpOut
 import Nq.SmtpIn
+import Nq.SmtpIO
 import Nq.Spec.Wire
 
-open Nq Nq.SmtpOut Nq.SmtpIn Nq.Wire Drv
+open Nq Nq.SmtpOut Nq.SmtpIn Nq.Wire Drv Drv.SmtpPlan
 
 /-- the property, evaluated on what the implementation transmitted for message `m` -/
 def oracleC06 (m out : Bytes) : Bool :=
   termOnce out && noBareLF out && linesStuffed out &&
   dblast out == .accepted (canon m) [] && rfcDecode out == .accepted (canon m) []
 
+/-- theorems C06_prefix_no_terminator / C06_chunking_no_early_end / C06_chunking_prefix, evaluated on what the socket had
+taken (`wire`) and what was still buffered when `blast()` did NOT complete (refused message, failing read, dropped
+connection): nothing but a prefix of the encoder's output has left the program, no bare LF, and no lone-dot line
+(the peer must not see end-of-data) -/
+def oracleIncomplete (m wire buffered : Bytes) : Bool :=
+  (wire ++ buffered).isPrefixOf (rfull .top m) && noBareLF wire && !((splitCRLF wire).1.contains [DOT] && rblast m != some wire)
+
 /-- does some line (LF-separated) start with a dot? `prev` is the previous byte -/
 def dotAtLineStart : Byte → Bytes → Bool
   | _, [] => false
   | prev, c :: rest => (prev == LF && c == DOT) || dotAtLineStart c rest
 
-def handle (st : Stats) (line : String) : IO Stats := do
+def splitPlan (tok : String) : Option (Plan × Plan) :=
+  match tok.splitOn "/" with
+  | [r] => (parsePlan r).map (fun p => (p, { caps := #[some 0] }))
+  | [r, w] => match parsePlan r, parsePlan w with
+      | some a, some b => some (a, b)
+      | _, _ => none
+  | _ => none
+
+def handle (sigs : SigRef) (st : Stats) (line : String) : IO Stats := do
   match fields line with
-  | [chunk, inh, status, outh] =>
-    match unhex inh, unhex outh with
-    | some m, some out =>
+  | [chunk, inh, status, outh, nwS, pS, bufh] =>
+    match unhex inh, unhex outh, unhex bufh, splitPlan chunk with
+    | some m, some out, some buffered, some (rplan, wplan) =>
       let h := hashBytes m
       let fresh := !st.seen.contains h
       let nontriv := m.contains CR || dotAtLineStart LF m
       let mut st := { st with cases := st.cases + 1, seen := st.seen.insert h,
                               nontrivial := st.nontrivial + (if fresh && nontriv then 1 else 0) }
-      st := st.bump ("chunk" ++ chunk)
+      st := st.bump ("chunk" ++ rplan.cls ++ "/" ++ wplan.cls)
       st := st.bump ("status" ++ status)
+      let anyFail := rplan.hasFail || wplan.hasFail
+      -- (1) the pure encoder
       let model := rblast m
       let agree := match status, model with
         | "O", some e => e == out
-        | "P", none => true
+        | "P", none => out ++ buffered == rpart .top m          -- C06_chunking_anyscript, partialLine clause
+        | "R", _ => rplan.hasFail
+        | "D", _ => wplan.hasFail
         | _, _ => false
       if !agree then
-        let ms := match model with | some e => "O " ++ hex e | none => "P -"
-        IO.println s!"DISAGREE in={inh} chunk={chunk} impl={status} {outh} model={ms}"
+        let ms := match model with | some e => "O " ++ hex e | none => "P " ++ hex (rpart .top m)
+        IO.println s!"DISAGREE in={inh} chunk={chunk} impl={status} {outh} buffered={bufh} model={ms}"
         st := { st with disagree := st.disagree + 1 }
+      -- (2) the loop over substdio with the plans as read / write scripts: same outcome, same bytes taken by the socket,
+      --     same bytes left in smtptobuf, same number of write() calls
+      -- (cost: `copyIn` appends to the buffered list, ~512 list steps per output byte; long messages are sampled 1 in 4)
+      let wcost := (out.length + buffered.length) * 512 + wplan.cost (out.length + buffered.length) 1024
+      if rplan.cost m.length 1024 > costBudget || wcost > costBudget || (wcost > 3000000 && h % 4 != 0) then
+        st := st.bump "chunked-model-skipped(cost)"
+      else
+        let rs := rplan.script (m.length + 4)
+        let ws := wplan.script (out.length + buffered.length + 16)
+        let res := Nq.SmtpIO.oblast (Nq.SmtpIO.istart 1024 m rs) (Nq.SmtpIO.ostart 1024 ws)
+        let o' := res.ost
+        let cls := match res with | .sent _ => "O" | .partialLine _ => "P" | .tempRead _ => "R" | .dropped _ => "D"
+        let cagree := cls == status && o'.out == out && o'.buf == buffered && pS.toNat? == some o'.p &&
+                      nwS.toNat? == some (ws.length - o'.ws.length)
+        if !cagree then
+          IO.println s!"DISAGREE in={inh} chunk={chunk} chunked-model impl={status} {outh} buffered={bufh} nwrites={nwS} model={cls} {hex o'.out} buffered={hex o'.buf} nwrites={ws.length - o'.ws.length}"
+          st := { st with disagree := st.disagree + 1 }
+      -- (3) property oracles on the implementation's behaviour
       if status == "O" && !oracleC06 m out then
         IO.println s!"ORACLE in={inh} chunk={chunk} out={outh} decoded_differs_or_terminator_or_bare_lf"
         st := { st with oracle := st.oracle + 1 }
-      if status == "T" then
-        IO.println s!"ORACLE in={inh} chunk={chunk} out={outh} unexpected_exit"
+      if status == "O" && buffered != [] then
+        IO.println s!"ORACLE in={inh} chunk={chunk} out={outh} buffered={bufh} blast_returned_with_unflushed_bytes"
         st := { st with oracle := st.oracle + 1 }
+      if (status == "P" || status == "R" || status == "D") && !oracleIncomplete m out buffered then
+        IO.println s!"ORACLE in={inh} chunk={chunk} impl={status} out={outh} buffered={bufh} incomplete_transmission_not_a_prefix_or_shows_end_of_data"
+        st := { st with oracle := st.oracle + 1 }
+      if status == "P" && (m.isEmpty || m.getLast? == some LF) then
+        IO.println s!"ORACLE in={inh} chunk={chunk} impl={status} out={outh} complete_last_line_refused"
+        st := { st with oracle := st.oracle + 1 }
+      if status == "T" || (status == "R" && !rplan.hasFail) || (status == "D" && !wplan.hasFail) then
+        IO.println s!"ORACLE in={inh} chunk={chunk} impl={status} out={outh} unexpected_exit"
+        st := { st with oracle := st.oracle + 1 }
+      -- chunk independence (C06_chunking_indep) on the implementation: same message, any non-failing plans => same outcome and wire
+      if !anyFail then
+        let sig := if status == "O" then s!"O {hashBytes out} {out.length}" else status
+        match ← checkSig sigs h chunk sig with
+        | some first =>
+          IO.println s!"ORACLE in={inh} chunk={chunk} impl={status} out={outh} chunking-dependent: differs from the run under plan {first}"
+          st := { st with oracle := st.oracle + 1 }
+        | none => pure ()
       if fresh && nontriv && st.samples < 3 && m.length ≥ 4 then
         IO.println s!"SAMPLE in={inh} chunk={chunk} status={status} out={outh}"
         st := { st with samples := st.samples + 1 }
       return st
-    | _, _ => IO.println s!"DISAGREE unparsable line {line}"; return { st with disagree := st.disagree + 1 }
+    | _, _, _, _ => IO.println s!"DISAGREE unparsable line {line}"; return { st with disagree := st.disagree + 1 }
   | _ => IO.println s!"DISAGREE unparsable line {line}"; return { st with disagree := st.disagree + 1 }
 
-def main : IO Unit := runDriver handle
+def main : IO Unit := do
+  let sigs : SigRef ← IO.mkRef {}
+  runDriver (handle sigs)
